@@ -12,7 +12,7 @@ import (
 // Cons is one generated consumer.  (The HLS consumer is implicit: HLS is on in
 // every case whose codecs MPEG-TS can carry.)
 type Cons struct {
-	Kind string `json:"kind"` // "ts" (HTTP-TS subscriber) | "rtsp" (RTSP subscriber, interleaved)
+	Kind string `json:"kind"` // "ts" (HTTP-TS subscriber) | "rtsp" (RTSP subscriber, interleaved) | "rtspu" (RTSP subscriber, RTP over UDP)
 	// JoinAt: -1 = before the publisher connects; k = after items[0..k) were
 	// processed by lal (k == len(items): right before the tail).
 	JoinAt int `json:"join_at"`
@@ -26,7 +26,37 @@ type Case struct {
 	TsGop     int        `json:"ts_gop"`      // httpts gop_num
 	HlsFragMs int        `json:"hls_frag_ms"` // hls fragment_duration_ms
 	Cons      []Cons     `json:"cons"`
+	// Wrap: the stream starts shortly before 2^32 ms and runs across the roll-over of the 32-bit RTMP timestamp
+	// (no other jumps in such a case; "later" is meant in serial-number arithmetic).
+	Wrap bool `json:"wrap,omitempty"`
+	// AscExt selects the bytes that follow the 2-byte head of the AudioSpecificConfig (see ascBytes).
+	AscExt int `json:"asc_ext,omitempty"`
 }
+
+// ascBytes renders the AudioSpecificConfig of the case: the 2-byte head (object type, frequency index, channel
+// configuration, GASpecificConfig flags 0) followed by what real encoders append.
+func ascBytes(cd gen.Codecs, ext int) []byte {
+	if cd.Audio != "aac" {
+		return nil
+	}
+	b := gen.Asc(cd.AscObj, cd.AscFreq, cd.AscChan)
+	switch ext {
+	case 1:
+		b = append(b, 0, 0) // zero padding (common in FLV files)
+	case 2:
+		// backward-compatible SBR signalling: syncExtensionType 0x2b7, extensionAudioObjectType 5, sbrPresentFlag 1,
+		// extensionSamplingFrequencyIndex 3
+		b = append(b, 0x56, 0xE5, 0x98)
+	case 3:
+		b = append(b, 0x56, 0xE5, 0x00) // the same with sbrPresentFlag 0 (what libfdk / ffmpeg write for plain AAC-LC)
+	case 4:
+		b = append(b, 0)
+	}
+	return b
+}
+
+// serialLE: a <= b in serial-number arithmetic (RFC 1982) on 32-bit millisecond timestamps.
+func serialLE(a, b uint32) bool { return int32(b-a) >= 0 }
 
 const (
 	maxTs = uint32(0xF8000000) // generated timestamps stay below this (no 32-bit wrap inside a case)
@@ -299,9 +329,16 @@ func genCase(t *rapid.T) Case {
 		}
 	}
 
+	if cd.Audio == "aac" {
+		c.AscExt = rapid.SampledFrom([]int{0, 0, 0, 1, 2, 3, 4}).Draw(t, "ascExt")
+	}
 	var items []gen.Item
 	serial := uint32(100000)
 	start := genStartTs(t)
+	if rapid.IntRange(0, 11).Draw(t, "wrap32") == 0 {
+		c.Wrap = true
+		start = uint32(1<<32 - uint64(rapid.Uint32Range(1, 400).Draw(t, "msBeforeWrap")))
+	}
 	variant := rapid.IntRange(0, 2).Draw(t, "variant")
 	var pro []gen.Item
 	if rapid.IntRange(0, 2).Draw(t, "hasMeta") != 0 {
@@ -345,7 +382,7 @@ func genCase(t *rapid.T) Case {
 		nAudio++
 	}
 	jump := func() {
-		if rapid.IntRange(0, 9).Draw(t, "jump") != 0 {
+		if c.Wrap || rapid.IntRange(0, 9).Draw(t, "jump") != 0 {
 			return
 		}
 		who := rapid.SampledFrom([]string{"both", "both", "video", "audio"}).Draw(t, "jumpWho")
@@ -423,11 +460,11 @@ func genCase(t *rapid.T) Case {
 						emitAudio()
 						k++
 					}
-					for ats <= vts && k < 10 && nAudio < 60 {
+					for serialLE(ats, vts) && k < 10 && nAudio < 60 {
 						emitAudio()
 						k++
 					}
-					if ats <= vts {
+					if serialLE(ats, vts) {
 						ats = vts + 1 // audio fell far behind (video jumped): catch up instead of flooding
 					}
 				}
@@ -474,23 +511,42 @@ func genCase(t *rapid.T) Case {
 	for i := 0; i < nrtsp; i++ {
 		c.Cons = append(c.Cons, Cons{Kind: "rtsp", JoinAt: drawJoin()})
 	}
+	// RTP over UDP (real loopback sockets): only for streams small enough to sit in a socket receive buffer whatever
+	// the scheduler does to the reading goroutine
+	total := 0
+	for _, it := range items {
+		total += it.ALen
+		for _, n := range it.Nals {
+			total += len(n.Hdr) + n.Len
+		}
+	}
+	if total <= 48<<10 && rapid.IntRange(0, 2).Draw(t, "udpConsumer") == 0 {
+		c.Cons = append(c.Cons, Cons{Kind: "rtspu", JoinAt: drawJoin()})
+	}
 	return c
 }
 
 // tailItems is the deterministic epilogue appended to every case (it is part of
 // the published stream and compared like everything else):
+//   - 17 small non-key frames: lal's TS remuxer and RTSP remuxer hold up to 16
+//     messages of a single-track stream while probing for the second track, so
+//     both have announced their track set (PMT, SDP) when these are through;
 //   - an audio frame followed within 1 ms by a small key frame: a point at which
 //     every consumer kind is able to start (TS: key frame with a non-empty AAC
-//     batch; RTSP: IDR packet), so a consumer that joined anywhere sees the end;
-//   - 17 small frames: lal's TS remuxer and RTSP remuxer hold up to 16 messages
-//     of a single-track stream while probing for the second track;
-//   - one final small frame per track, used as end marker.
-func tailItems(cd gen.Codecs, items []gen.Item) []gen.Item {
+//     batch; RTSP: IDR packet after the SDP exists), so that a consumer attached
+//     anywhere before it sees the end;
+//   - two more frames and one final small frame per track, used as end marker.
+func tailItems(cd gen.Codecs, items []gen.Item, wrap bool) []gen.Item {
 	T := uint32(0)
+	first := true
 	for _, it := range items {
-		if it.Kind != "meta" && it.Ts > T {
+		if it.Kind == "meta" {
+			continue
+		}
+		if first || (!wrap && it.Ts > T) || (wrap && serialLE(T, it.Ts)) {
 			T = it.Ts
 		}
+		first = false
 	}
 	T++
 	serial := uint32(90000000)
@@ -511,16 +567,17 @@ func tailItems(cd gen.Codecs, items []gen.Item) []gen.Item {
 	var out []gen.Item
 	switch {
 	case cd.Video != "":
-		if cd.Audio != "" {
-			out = append(out, aud(T, 20))
-		}
-		out = append(out, vid(T+1, k, 30, true))
 		for i := 0; i < 17; i++ {
-			out = append(out, vid(T+2+uint32(i), n, 8, false))
+			out = append(out, vid(T+uint32(i), n, 8, false))
 		}
-		out = append(out, vid(T+20, n, 16, false))
 		if cd.Audio != "" {
-			out = append(out, aud(T+21, 24))
+			out = append(out, aud(T+17, 20))
+		}
+		out = append(out, vid(T+18, k, 30, true))
+		out = append(out, vid(T+19, n, 8, false), vid(T+20, n, 9, false))
+		out = append(out, vid(T+21, n, 16, false))
+		if cd.Audio != "" {
+			out = append(out, aud(T+22, 24))
 		}
 	default:
 		for i := 0; i < 18; i++ {
@@ -592,7 +649,7 @@ func classify(c Case) (bool, []string) {
 	cd := c.Codecs
 	maxNal, multi, cts, batched, bigNal := 0, false, false, false, false
 	lastA := int64(-1 << 40)
-	jumpF, jumpB := false, false
+	jumpF, jumpB, pts33 := false, false, false
 	var prevV, prevA int64 = -1, -1
 	for _, it := range c.Items {
 		switch it.Kind {
@@ -613,6 +670,9 @@ func classify(c Case) (bool, []string) {
 				}
 			}
 			if prevV >= 0 {
+				if int64(it.Ts)-prevV >= 95443718-63000/90 {
+					pts33 = true // the PTS field (relative to the first frame, plus lal's 700 ms delay) passes 2^33
+				}
 				if int64(it.Ts) < prevV {
 					jumpB = true
 				}
@@ -678,6 +738,15 @@ func classify(c Case) (bool, []string) {
 	}
 	if c.TsGop > 0 {
 		labels = append(labels, "ts-gop-cache")
+	}
+	if c.Wrap {
+		labels = append(labels, "rtmp-ts-wraps-2^32")
+	}
+	if cd.Audio == "aac" {
+		labels = append(labels, fmt.Sprintf("asc-bytes:%d", len(ascBytes(cd, c.AscExt))))
+	}
+	if pts33 {
+		labels = append(labels, "pts-field-wraps-2^33")
 	}
 	if len(c.Items) > 0 {
 		for _, it := range c.Items {
